@@ -359,8 +359,14 @@ def run_check(engine_name: str, argv: Optional[List[str]] = None) -> int:
         if finding is not None:
             known_hits.setdefault(finding["id"], {"finding": finding, "replay": path})
             continue
+        prog = ""
+        specs = [small.get("spec")] + [p.get("spec") for p in small.get("progs", [])] if isinstance(small, dict) else []
+        specs = [s_ for s_ in specs if s_]
+        if specs:
+            prog = " program shrunk to " + "+".join(str(len(s_["prog"])) for s_ in specs) + " statements: " + \
+                " | ".join("/".join(st["op"] for st in s_["prog"]) for s_ in specs)[:300]
         print(f"violation class={cls} seed={seed} ops {len(plan.get('ops', []))} -> "
-              f"{len(small.get('ops', []))} (shrink executions {used})")
+              f"{len(small.get('ops', []))} (shrink executions {used}){prog}")
         print(f"  detail: {again['violation']['detail'][:600]}")
         print(f"VIOLATION property={prop} replay={path}", flush=True)
         reported.append({"class": list(cls), "replay": path})
